@@ -309,6 +309,27 @@ func runHistCase(c *HistCase, keep bool) Outcome {
 		}
 		log.add('H', 'b', "BINARY executions=%d distinct=%d", len(results), len(distinct))
 		o.Shape = "binary:" + shapeOfItem(&it)
+		if len(distinct) == 1 && len(it.Inputs) == 1 {
+			// the same bytes on standard input, behind three kinds of descriptor
+			var viaStdin []string
+			modes := []string{"", "offset", "pipe"}
+			for _, mode := range modes {
+				pc := &ProcCase{Prog: it.Prog, Selectors: it.Selectors, OMode: c.OMode, Stdin: it.Inputs[0].Data, StdinMode: mode}
+				res, err := runBinary(pc, "")
+				if err != nil {
+					return harness(err)
+				}
+				viaStdin = append(viaStdin, fmt.Sprintf("exit=%d stdout=%q ofile=%q stderr=%q", res.exit, res.stdout, res.ofile, res.stderr))
+			}
+			o.Probes["stdin_deliveries"] += len(modes)
+			for i, r := range viaStdin[1:] {
+				if r != viaStdin[0] {
+					o.Class = "nondeterministic-binary"
+					o.Msg = fmt.Sprintf("the binary gave different results for the same bytes on standard input (a regular file at offset 0 vs %q):\n%s\n%s", modes[i+1], truncate(viaStdin[0], 500), truncate(r, 500))
+					return finish()
+				}
+			}
+		}
 		if len(distinct) > 1 {
 			o.Class = "nondeterministic-binary"
 			o.Msg = fmt.Sprintf("the binary gave different results for the same command line under different environments:\n%s\n%s", truncate(results[0], 500), truncate(results[1], 500))
@@ -339,6 +360,14 @@ var histKeys = []string{"alpha", "beta", "gamma", "delta", "eps", "zeta", "eta",
 var histTieKeys = []string{"1", "1.0", "01", "1e0", "10", "9", "a", "A", "ab", "aB", "Ab", " a", "a ", "é", "e", "", "-1", "-01", "0", "-0", "00", "x1", "x01", "x10", "x9"}
 
 func genObjText(t *Tape, minKeys, maxKeys int, nest bool) string {
+	return genObjTextS(t, minKeys, maxKeys, nest, false)
+}
+
+// histStrPieces: string contents of input documents (JSON text only): escapes,
+// and text that looks like comments, separators or structure
+var histStrPieces = []string{`\"`, `\\`, `\/`, "//", "/* c */", "http://h.example/p?q=1", "# x", `\u0041`, `\n`, `\t`, "é", "😀", "]", "}", ",", ":", " ", "a"}
+
+func genObjTextS(t *Tape, minKeys, maxKeys int, nest bool, richStr bool) string {
 	n := minKeys + t.Draw(maxKeys-minKeys+1)
 	perm := append([]string(nil), histKeys...)
 	if t.Chance(1, 4) {
@@ -357,11 +386,18 @@ func genObjText(t *Tape, minKeys, maxKeys int, nest bool) string {
 			v = fmt.Sprint(t.Draw(100))
 		case 1:
 			v = fmt.Sprintf("\"s%d\"", t.Draw(100))
+			if richStr && t.Chance(1, 2) {
+				var sb strings.Builder
+				for k := 1 + t.Draw(4); k > 0; k-- {
+					sb.WriteString(histStrPieces[t.Draw(len(histStrPieces))])
+				}
+				v = v[:len(v)-1] + sb.String() + "\""
+			}
 		case 2:
 			v = []string{"true", "false", "null"}[t.Draw(3)]
 		default:
 			if nest {
-				v = genObjText(t, 2, 4, false)
+				v = genObjTextS(t, 2, 4, false, richStr)
 			} else {
 				v = "[1, 2]"
 			}
@@ -407,13 +443,13 @@ func genItem(t *Tape) Item {
 			n := 1 + t.Draw(3)
 			parts := make([]string, n)
 			for i := range parts {
-				parts[i] = genObjText(t, 5, 8, true)
+				parts[i] = genObjTextS(t, 5, 8, true, true)
 			}
 			return "[" + strings.Join(parts, ", ") + "]"
 		case 1:
-			return genObjText(t, 6, 8, true)
+			return genObjTextS(t, 6, 8, true, true)
 		default:
-			return genObjText(t, 6, 8, false) + "\n" + genObjText(t, 2, 8, true)
+			return genObjTextS(t, 6, 8, false, true) + "\n" + genObjTextS(t, 2, 8, true, true)
 		}
 	}
 	it.Inputs = []ProgInput{{Name: "in.json", Data: QBytes(doc())}}
